@@ -626,7 +626,7 @@ func (t *Table) IsTotalOrder(o []OrderKey) bool {
 	}
 	folding := func(ci int) bool {
 		c := t.Cols[ci].Type
-		return c.Kind == KStr && (c.Coll == CollAiCi || c.Coll == CollGeneralCi)
+		return c.Kind == KStr && c.Coll != CollBin
 	}
 	for _, k := range o {
 		if folding(k.Col) {
